@@ -28,8 +28,8 @@ Oracle 2 (interop leg, `interop_leg`): through vlib/trxcon_drv.py (subprocess dr
     TRXD receive callback; the recorded burst indication must carry the fn, tn, rssi, toa256, burst length and
     soft bits of the case.
   * tx: every version-0 Tx message of the enumeration without legacy padding is given to trxcon as a burst
-    request (fn, tn, pwr, 148 / 444 hard bits); the datagram trxcon sends, if any, is parsed by TxMsg.parse_msg()
-    and must read back ver 0 and the same fn, tn, pwr and bits.
+    request (fn, tn, pwr, 148 / 444 hard bits; the base messages also with 0 bits); the datagram trxcon sends,
+    if any, is parsed by TxMsg.parse_msg() and must read back ver 0 and the same fn, tn, pwr and bits.
   * trxcon dying (ASan / UBSan / signal) on one of these vectors is a violation of its own key.
 """
 from array import array
@@ -362,6 +362,8 @@ def _interop_chunks(tier):
             continue
         p = P[ch[1]]
         if p["kind"] == "K2":
+            if tier != "thorough" and ch[0] == "sweep" and ch[3] == "toa" and p["tn"] != 0:
+                continue            # quick: the 65536-value ToA sweep through trxcon at TN 0 only (legacy off and on)
             rx.append(ch)
         elif p["kind"] == "K1" and p["ver"] == 0 and not p["legacy"]:
             tx.append(ch)
@@ -374,6 +376,10 @@ def _interop_cases(ch):
         for i in ch[1]:
             for b in range(3):
                 yield E.base_case(P[i], b)
+    elif ch[0] == "basepts0":       # burst requests without bits (trxcon then sends the 6-octet header only)
+        for i in ch[1]:
+            for b in range(3):
+                yield dict(E.base_case(P[i], b), bl=0, burst=["zeros"], grp="base0")
     else:
         for c in E.cases(ch):
             yield c
@@ -412,9 +418,10 @@ def tx_interop_verdict(e, c, r):
             out.append(("C04:interop:tx:" + f, "%s: trxcon was given %r, toolkit parses %r (datagram %s...)"
                         % (f, exp, got, data[:8].hex())))
     bits = E.burst_values(c)
-    if p.burst is None or bytes(p.burst) != bits:
+    got = b"" if p.burst is None else bytes(p.burst)
+    if got != bits:
         out.append(("C04:interop:tx:burst", "burst: trxcon was given %d bits, toolkit parses %s"
-                    % (len(bits), "None" if p.burst is None else _first_diff(bytes(p.burst), bits))))
+                    % (len(bits), "None" if p.burst is None else _first_diff(got, bits))))
     return True, out
 
 
@@ -461,7 +468,7 @@ def _rx_vector(e, c):
 
 
 def _tx_vector(c):
-    return "%d %d %d %d %s" % (c["fn"], c["tn"], c["pwr"], c["bl"], E.burst_values(c).hex())
+    return "%d %d %d %d %s" % (c["fn"], c["tn"], c["pwr"], c["bl"], E.burst_values(c).hex() or "-")
 
 
 def interop_verdict(e, direction, c, r):
@@ -528,6 +535,7 @@ def interop_leg(ctx):
         P = E.points()
         rx.insert(0, ["basepts", [p["idx"] for p in P if p["kind"] == "K2"]])
         tx.insert(0, ["basepts", [p["idx"] for p in P if p["kind"] == "K1" and p["ver"] == 0 and not p["legacy"]]])
+        tx.insert(1, ["basepts0", [p["idx"] for p in P if p["kind"] == "K1" and p["ver"] == 0 and not p["legacy"]]])
         items = [("rx", exe, ch) for ch in rx] + [("tx", exe, ch) for ch in tx]
         for r in ctx.pmap(work_interop, items):
             ctx.merge(r)
@@ -552,7 +560,11 @@ def run(ctx):
                  "00/7f/ff) of the reference encodings of the base messages at %s: parse result compared with the reference reading "
                  "when accepted (mut_* counters). distinct_nontrivial counts only the distinct enumerated cases whose octets were "
                  "produced and compared (case key = all message fields + burst pattern + legacy flag); mutated datagrams differ from "
-                 "their base by construction and are counted separately, duplicates across bases not removed. Interop leg: %s."
+                 "their base by construction and are counted separately, duplicates across bases not removed. Interop leg: %s; "
+                 "rx = the base / sweep / burst-pattern cases of the rx v0 points with not-carried fields None (legacy off/on, TN; "
+                 "in quick the ToA sweep at TN 0 only) encoded by the toolkit and decoded by trxcon's trx_data_rx_cb, tx = the cases "
+                 "of the tx v0 points without legacy padding given to trx_if_handle_phyif_burst_req and parsed back by TxMsg "
+                 "(interop_* counters)."
                  % ("every tx / rx v0 / rx v1 NOPE point and every rx v1 burst point (3 base points each)" if not ctx.quick else
                     "every tx / rx v0 / rx v1 NOPE point (3 base points) and the rx v1 burst points with TSC == TN (base point = "
                     "point index mod 3)",
